@@ -146,6 +146,7 @@ int atomic_load(const void* addr, int size, int order, uint64_t* out);    // 1: 
 // optional access observer (race detector): called for every instrumented access while active
 typedef void (*AccessObserver)(int task, const void* addr, int size, bool is_write, bool is_atomic);
 void set_access_observer(AccessObserver o, const void* lo, const void* hi);
+void set_access_observer2(AccessObserver o, const void* lo, const void* hi);   // a second, independent address range
 // synchronisation observer (vector clocks): acquire/release on a logical object
 typedef void (*SyncObserver)(int task, uint64_t obj, int what); // what: 0 acquire, 1 release, 2 fork(child=obj), 3 join(child=obj)
 void set_sync_observer(SyncObserver o);
